@@ -60,7 +60,7 @@ def rule_s1(ctx: Ctx) -> None:
         "return any(self._applies_to_symmetry(frozenset(b)) for b in all_symmetry_sets(self._basis))",
         "return any(self._applies_to_symmetry(b) for b in map(frozenset, all_symmetry_sets(self.basis)))",
     ]
-    ctx.run(check_skeleton, ctx, "C19-S1", wrap, specs, "applies = Exists b in symmetries(basis): _applies_to_symmetry(b)")
+    ctx.run(check_skeleton, ctx, "C19-S1", wrap, specs, "applies = Exists b in symmetries(basis): _applies_to_symmetry(b)", required_calls=["all_symmetry_sets", "_applies_to_symmetry"])
     r = repo.resolve_name(wrap.module, "all_symmetry_sets")
     if isinstance(r, FuncInfo) and r.where == "permuta.permutils.symmetry:all_symmetry_sets":
         ctx.ok("C19-S1", wrap.where, "all_symmetry_sets resolves to permutils.symmetry.all_symmetry_sets (orbit decided under C04-A4)")
@@ -269,7 +269,7 @@ def variants():
     IN, AB, CO, IE, FM = ("permuta/enumeration_strategies/__init__.py", "permuta/enumeration_strategies/abstract_strategy.py", "permuta/enumeration_strategies/core_strategies.py",
                           "permuta/enumeration_strategies/insertion_encodable.py", "permuta/enumeration_strategies/finitely_many_simples.py")
     return [
-        V("wrapper-only-identity", replace_expr(AB, "EnumerationStrategyWithSymmetry.applies", "map(frozenset, all_symmetry_sets(self._basis))", "map(frozenset, [self._basis])"), "fire-or-undecided", "C19-S1"),
+        V("wrapper-only-identity", replace_expr(AB, "EnumerationStrategyWithSymmetry.applies", "map(frozenset, all_symmetry_sets(self._basis))", "map(frozenset, [self._basis])"), "fire", "C19-S1"),
         V("wrapper-all-symmetries", replace_stmt(AB, "EnumerationStrategyWithSymmetry.applies", "return next((True for b in syms if self._applies_to_symmetry(b)), False)", "return all((self._applies_to_symmetry(b) for b in syms))"), "fire", "C19-S1"),
         V("wrapper-negated", replace_stmt(AB, "EnumerationStrategyWithSymmetry.applies", "return next((True for b in syms if self._applies_to_symmetry(b)), False)", "return next((True for b in syms if not self._applies_to_symmetry(b)), False)"), "fire", "C19-S1"),
         V("basis-stored-as-tuple", replace_expr(AB, "EnumerationStrategy.__init__", "frozenset(basis)", "tuple(basis)"), "fire", "C19-S1"),
